@@ -28,7 +28,13 @@ def worker(unit, emit):
     conv = row['conv']
     bnd = row.get('b', [0, 0, 0, 1])
 
+    either = bool(row.get('either'))
+    pl = row.get('pl', [])
+
     def slicer(v):
+        if conv == 'cat':    # payload = concatenation of slices of v (0-based [a, b), b <= 0 from the end); check slice from b
+            ck2 = len(v) + bnd[2] if bnd[2] < 0 else bnd[2]
+            return ''.join(v[a:(len(v) + b if b <= 0 else b)] for a, b in pl), ck2, bnd[3]
         if conv != 'gen':
             return CONV[conv](v)
         pa, pb, ck, cn = bnd
@@ -51,20 +57,27 @@ def worker(unit, emit):
     digits = '0123456789'
     letters = 'ABCDEFGHIJKLMNOPQRSTUVWXYZ'
     synth = []
-    queue = list(vals)
+    # shapes: numbers that were valid when the binding was made (bindings/checkdigit_shapes.json).  They only serve as
+    # WELL-FORMED PAYLOADS for p3 -- a validator that drifted away from its generator no longer accepts them, so they
+    # would otherwise silently drop out of the valid numbers and nothing of that format would be examined.
+    shapes = [x for x in p['shapes'].get(key, []) if x not in vals and (not row.get('domain_re') or re.search(row['domain_re'], x))]
+    queue = list(vals) + shapes
     done = 0
     while queue:
         v = queue.pop(0)
         done += 1
-        is_synth = done > len(vals)
+        is_synth = done > len(vals) + len(shapes)
+        is_shape = len(vals) < done <= len(vals) + len(shapes)
         payload, lo, n = slicer(v)
-        base = {'m': name, 'fn': fn, 'conv': conv, 'v': lib.cps(v), 'b': bnd}
+        base = {'m': name, 'fn': fn, 'conv': conv, 'v': lib.cps(v), 'b': bnd, 'pl': pl, 'either': either}
         r = lib.call(f, payload)
-        emit.trace([dict(base, kind='p1', arg=lib.cps(payload), r=ac.slim(r))],
-                   {'m': name, 'w': v, 'how': 'p1 %s(%r)' % (fn, payload), 'site': r['site']})
-        emit.count('p1')
+        gv = r['v'] if r['k'] == 'ret' and r['t'] == 'str' else []
+        if not is_shape:
+            emit.trace([dict(base, kind='p1', arg=lib.cps(payload), r=ac.slim(r))],
+                       {'m': name, 'w': v, 'how': 'p1 %s(%r)' % (fn, payload), 'site': r['site']})
+            emit.count('p1')
         # p2: every alternative at every check position
-        if not p['skip_p2'].get(key):
+        if not p['skip_p2'].get(key) and not is_shape:
             for pos in range(n):
                 orig = v[lo + pos]
                 alpha = row.get('alphabet', digits)
@@ -73,15 +86,16 @@ def worker(unit, emit):
                         continue
                     ed = v[:lo + pos] + a + v[lo + pos + 1:]
                     ra = lib.call(mod.is_valid, ed, **{k: w for k, w in vopts.items() if lib.has_kw(mod.is_valid, k)})
-                    emit.trace([dict(base, kind='p2', pos=pos, alt=ord(a), ed=lib.cps(ed),
+                    emit.trace([dict(base, kind='p2', pos=pos, alt=ord(a), ed=lib.cps(ed), g=gv,
                                      acc=ra['k'] == 'ret' and ra['b'] is True)],
                                {'m': name, 'w': ed, 'base': v, 'how': 'p2 check position %d -> %s' % (pos, a)})
                     emit.count('p2')
         # p3: well-formed payloads (shape of a valid number, payload characters re-drawn) + generated characters
         single = len([x for x in dir(mod) if x.startswith('calc_check') and callable(getattr(mod, x))]) == 1
-        for _ in range(p['payloads'] if single and not is_synth and not row.get('no_p3') else 0):
+        p3_ok = (single or bool(row.get('domain_re'))) and not is_synth and not row.get('no_p3')
+        for it in range(p['payloads'] + 1 if p3_ok else 0):
             w = list(v)
-            k = 1 + rnd.randrange(3)
+            k = 1 + rnd.randrange(3) if it else 0     # first the payload of v itself
             for _i in range(k):
                 i = rnd.randrange(len(w))
                 if lo <= i < lo + n:
@@ -139,7 +153,8 @@ def main():
     for inst in c06.instances('quick'):
         aut, ids, wit, apath = c06.mc_extracted(chk, inst)
         c06.conformance(chk, inst, aut, ids, wit, apath, 25 if quick else 300)
-    p = {'seed': chk.seed, 'bases': 15 if quick else 300, 'payloads': 10 if quick else 100, 'synth': 25 if quick else 400, 'skip_p2': bind.get('skip_p2', {})}
+    shapes = json.load(open(os.path.join(lib.VERIF, 'bindings', 'checkdigit_shapes.json')))
+    p = {'seed': chk.seed, 'shapes': shapes, 'bases': 15 if quick else 300, 'payloads': 10 if quick else 100, 'synth': 25 if quick else 400, 'skip_p2': bind.get('skip_p2', {})}
     units = []
     gone = []
     for key, row in sorted(bind['rows'].items()):
